@@ -2,7 +2,7 @@
    children listing (Load(recurse=false) / Children), bulk lookup (GetMany), conversion (Interface). *)
 From Coq Require Import ZArith List Bool Lia.
 From DG Require Import CaseFormat ProtoWireRef ProtoWireRefProofs ProtoMsg ProtoMsgProofs
-  ProtoGeneric ProtoGenericAlg ProtoGenericDom ProtoGenericProofs ProtoGenericRefine.
+  ProtoGeneric ProtoGenericAlg ProtoGenericDom ProtoGenericKids ProtoGenericProofs ProtoGenericRefine.
 Import ListNotations.
 Local Open Scope Z_scope.
 
@@ -427,4 +427,174 @@ Proof.
   pose proof (scan_map_run S kk t kvs (a_scan (length (wenc (map (erec num) (map entry_of kvs)))) all_fixes S false) [] f num Hkk Hn Hall) as H.
   cbn [app] in H. change (plen (@nil Z)) with 0 in H. rewrite Z.add_0_l in H. apply H.
   change (2 ^ 63) with 9223372036854775808 in Hlen. exact Hlen.
+Qed.
+
+(* ------------------------------------------------------------------ the listed children are the one-step lookups *)
+Lemma beqb_true a : forall b, bytes_eqb a b = true -> a = b.
+Proof.
+  induction a as [|x a IH]; intros [|y b] H; try discriminate; [reflexivity|].
+  cbn in H. apply andb_true_iff in H. destruct H as [H1 H2]. apply Z.eqb_eq in H1. subst y. f_equal. apply IH. exact H2.
+Qed.
+
+Lemma find_kid_msg md n fs :
+  find_kid (PField n) (map (msg_child md) fs) =
+  match assoc_z n fs with Some x => Some (msg_child md (n, x)) | None => None end.
+Proof.
+  induction fs as [|[m x] fs IH]; [reflexivity|].
+  cbn [map assoc_z].
+  assert (Hs : exists tt raw, msg_child md (m, x) = ATree (PField m) tt raw []).
+  { unfold msg_child. cbn [fst snd]. destruct (find_field md m); eauto. }
+  destruct Hs as [tt [raw Hs]]. rewrite Hs. cbn [find_kid step_eqb].
+  destruct (Z.eqb_spec m n) as [->|Hne]; [rewrite Hs; reflexivity|exact IH].
+Qed.
+
+Theorem children_lookup_msg S name num0 fs n :
+  wf_fld S LSingular (TMsg name) (VMsg fs) = true ->
+  find_kid (PField n) (spec_children S LSingular (TMsg name) (VMsg fs)) =
+  child_of_lres (PField n) (plookup S LSingular (TMsg name) num0 (VMsg fs) [PField n]).
+Proof.
+  intros Hwf. destruct (wf_msg_facts _ _ _ Hwf) as [md [Hfm [Hnd [_ Hfs]]]].
+  cbn [plookup is_field_step negb spec_children step_field]. rewrite Hfm.
+  change (map _ fs) with (map (msg_child md) fs). rewrite find_kid_msg.
+  destruct (assoc_z n fs) as [x|] eqn:Ha.
+  - destruct (assoc_z_split _ _ _ Ha) as [fs1 [fs2 [E _]]]. subst fs. destruct (fields_wf_app _ _ _ _ Hfs) as [_ H2].
+    inversion H2 as [|? ? [fd [Hfd _]] _]; subst. cbn [fst] in Hfd. rewrite Hfd. rewrite (find_field_num _ _ _ Hfd), Ha.
+    cbn [plookup child_of_lres]. unfold msg_child. cbn [fst snd]. rewrite Hfd. reflexivity.
+  - destruct (find_field md n) as [fd|] eqn:Hfd; [|reflexivity]. rewrite (find_field_num _ _ _ Hfd), Ha. reflexivity.
+Qed.
+
+Lemma find_kid_index t i vs : forall j,
+  find_kid (PIndex i) (index_children t j vs) =
+  if i <? j then None
+  else match nth_error vs (Z.to_nat (i - j)) with
+       | Some x => Some (ATree (PIndex i) (kind_of_type t) (encode_elem x) [])
+       | None => None
+       end.
+Proof.
+  induction vs as [|x vs IH]; intros j.
+  - cbn [index_children find_kid]. destruct (i <? j); [reflexivity|]. destruct (Z.to_nat (i - j)); reflexivity.
+  - cbn [index_children find_kid step_eqb]. destruct (Z.eqb_spec j i) as [->|Hne].
+    + rewrite Z.ltb_irrefl, Z.sub_diag. reflexivity.
+    + rewrite IH. destruct (Z.ltb_spec i (j + 1)); destruct (Z.ltb_spec i j); try lia; [reflexivity|].
+      replace (Z.to_nat (i - j)) with (Datatypes.S (Z.to_nat (i - (j + 1)))) by lia. reflexivity.
+Qed.
+
+Theorem children_lookup_list S p t num q vs i :
+  find_kid (PIndex i) (spec_children S (LRepeated p) t (VList q vs)) =
+  child_of_lres (PIndex i) (plookup S (LRepeated p) t num (VList q vs) [PIndex i]).
+Proof.
+  cbn [spec_children plookup]. rewrite find_kid_index, Z.sub_0_r.
+  destruct (i <? 0); [reflexivity|]. destruct (nth_error vs (Z.to_nat i)); reflexivity.
+Qed.
+
+Definition map_child (t : ftype) (kx : mkey * pval) : atree :=
+  ATree (key_step (fst kx)) (kind_of_type t) (encode_elem (snd kx)) [].
+
+Lemma find_kid_str t b kvs :
+  find_kid (PStrKey b) (map (map_child t) kvs) =
+  match assoc_key (KStr b) kvs with Some x => Some (ATree (PStrKey b) (kind_of_type t) (encode_elem x) []) | None => None end.
+Proof.
+  induction kvs as [|[k x] kvs IH]; [reflexivity|].
+  cbn [map assoc_key]. unfold map_child at 1. cbn [fst snd find_kid]. destruct k as [kk v|b']; cbn [key_step step_eqb mkey_eqb].
+  - exact IH.
+  - destruct (bytes_eqb b' b) eqn:E; [|exact IH]. apply beqb_true in E. subst b'. reflexivity.
+Qed.
+
+Lemma find_kid_int t i kvs : to_s 64 i = i ->
+  find_kid (PIntKey i) (map (map_child t) kvs) =
+  match find (fun kx => key_matches i (fst kx)) kvs with
+  | Some kx => Some (ATree (PIntKey i) (kind_of_type t) (encode_elem (snd kx)) [])
+  | None => None
+  end.
+Proof.
+  intros Hi. induction kvs as [|[k x] kvs IH]; [reflexivity|].
+  cbn [map find]. unfold map_child at 1. cbn [fst snd find_kid]. destruct k as [kk v|b']; cbn [key_step step_eqb key_matches].
+  - rewrite Hi. destruct (Z.eqb_spec (to_s 64 v) i) as [->|Hne]; [reflexivity|exact IH].
+  - exact IH.
+Qed.
+
+Lemma keys_all_int kk kvs b : (kk =? 9) = false ->
+  Forall (fun kx : mkey * pval => key_okb kk (fst kx) = true) kvs -> assoc_key (KStr b) kvs = None.
+Proof.
+  intros Hk H. induction H as [|[k x] kvs Hx _ IH]; [reflexivity|].
+  cbn [assoc_key fst] in *. destruct k as [k' v|b']; cbn [mkey_eqb]; [exact IH|].
+  cbn [key_okb] in Hx. rewrite Hk in Hx. discriminate.
+Qed.
+
+Lemma keys_all_str kvs i :
+  Forall (fun kx : mkey * pval => key_okb 9 (fst kx) = true) kvs -> find (fun kx => key_matches i (fst kx)) kvs = None.
+Proof.
+  intros H. induction H as [|[k x] kvs Hx _ IH]; [reflexivity|].
+  cbn [find fst] in *. destruct k as [k' v|b']; cbn [key_matches]; [|exact IH].
+  cbn [key_okb] in Hx. apply andb_true_iff in Hx as [Hx _]. apply andb_true_iff in Hx as [_ Hx]. discriminate.
+Qed.
+
+Theorem children_lookup_map S kk t num kvs st :
+  wf_fld S (LMap kk) t (VMap kvs) = true -> listing_step st = true ->
+  match st with PStrKey _ | PIntKey _ => True | _ => False end ->
+  find_kid st (spec_children S (LMap kk) t (VMap kvs)) =
+  child_of_lres st (plookup S (LMap kk) t num (VMap kvs) [st]).
+Proof.
+  intros Hwf Hst Hk. destruct (wf_map_facts _ _ _ _ num Hwf) as [_ [_ Hall]].
+  assert (Hkeys : Forall (fun kx : mkey * pval => key_okb kk (fst kx) = true) kvs)
+    by (eapply Forall_impl; [|exact Hall]; intros a Ha; cbn beta in Ha; destruct Ha as [Ha _]; exact Ha).
+  cbn [spec_children plookup]. change (map _ kvs) with (map (map_child t) kvs).
+  destruct st as [| | |b|i]; try contradiction.
+  - rewrite find_kid_str. destruct (Z.eqb_spec kk 9) as [->|Hne].
+    + destruct (assoc_key (KStr b) kvs); reflexivity.
+    + rewrite (keys_all_int kk kvs b) by (try apply Z.eqb_neq; assumption). reflexivity.
+  - assert (Hi : to_s 64 i = i).
+    { cbn [listing_step step_okb] in Hst. apply andb_true_iff in Hst as [H1 H2]. apply Z.leb_le in H1. apply Z.ltb_lt in H2.
+      unfold to_s. change (2 ^ (64 - 1)) with 9223372036854775808. change (2 ^ 64) with 18446744073709551616.
+      change (2 ^ 63) with 9223372036854775808 in *. rewrite Z.mod_small by lia. lia. }
+    rewrite (find_kid_int t i kvs Hi). destruct (Z.eqb_spec kk 9) as [->|Hne].
+    + rewrite keys_all_str by exact Hkeys. reflexivity.
+    + destruct (find (fun kx => key_matches i (fst kx)) kvs); reflexivity.
+Qed.
+
+(* ------------------------------------------------------------------ the children's spans are consecutive and cover the payload *)
+Lemma single_span S t n v : wf_fld S LSingular t v = true ->
+  wenc (wfld n v) = tag_bytes n (elem_wt t) ++ encode_elem v.
+Proof.
+  intros H. destruct (wf_singular_facts _ _ _ H) as [_ [Hwt [_ Ee]]].
+  rewrite (wfld_single _ _ _ n H). unfold wenc. cbn [flat_map]. rewrite app_nil_r, wenc_field_tagb. cbn [fst snd].
+  rewrite Hwt, Ee. reflexivity.
+Qed.
+
+Theorem payload_cover_msg S name fs : wf_fld S LSingular (TMsg name) (VMsg fs) = true ->
+  payload_of_children S LSingular (TMsg name) 0 (VMsg fs) = Some (encode_msg fs).
+Proof.
+  intros Hwf. destruct (wf_msg_facts _ _ _ Hwf) as [md [Hfm [_ [_ Hfs]]]].
+  cbn [payload_of_children]. rewrite Hfm. f_equal. clear Hwf.
+  induction Hfs as [|[n v] fs [fd [Hfd [_ Hv]]] _ IH]; [reflexivity|].
+  cbn [flat_map]. rewrite encode_msg_cons, IH. f_equal. unfold kid_field_span. cbn [fst snd] in *. rewrite Hfd.
+  destruct (fd_label fd) eqn:El; cbn [node_raw]; try reflexivity.
+  symmetry. apply (single_span S _ n v Hv).
+Qed.
+
+Theorem payload_cover_list S p t num q vs : wf_fld S (LRepeated p) t (VList q vs) = true ->
+  payload_of_children S (LRepeated p) t num (VList q vs) = Some (wenc (wfld num (VList q vs))).
+Proof.
+  intros Hwf. destruct (wf_list_facts _ _ _ _ _ num Hwf) as [_ [_ [Hall Hshape]]].
+  cbn [payload_of_children]. destruct q.
+  - destruct Hshape as [k [xs [Et [Hk [Evs [Hxs [Ew _]]]]]]]. rewrite Ew. f_equal.
+    assert (E : flat_map encode_elem vs = penc k xs).
+    { subst vs t. clear Ew Hwf. induction xs as [|x xs IH]; [reflexivity|].
+      cbn [map flat_map] in *. rewrite penc_cons. inversion Hall as [|? ? Hx Hr]; subst. inversion Hxs as [|? ? _ Hxr]; subst.
+      rewrite (IH Hr Hxr). reflexivity. }
+    rewrite E. unfold wenc. cbn [flat_map]. rewrite app_nil_r. reflexivity.
+  - rewrite Hshape. f_equal. clear Hshape Hwf. induction Hall as [|x vs Hx _ IH]; [reflexivity|].
+    cbn [map flat_map]. rewrite wenc_cons, IH. f_equal. unfold kid_elem_span.
+    rewrite <- (single_span S t num x Hx), (wfld_single _ _ _ num Hx). unfold wenc. cbn [flat_map]. rewrite app_nil_r. reflexivity.
+Qed.
+
+Theorem payload_cover_map S kk t num kvs : wf_fld S (LMap kk) t (VMap kvs) = true ->
+  payload_of_children S (LMap kk) t num (VMap kvs) = Some (wenc (wfld num (VMap kvs))).
+Proof.
+  intros Hwf. destruct (wf_map_facts _ _ _ _ num Hwf) as [_ [Ew Hall]].
+  cbn [payload_of_children]. rewrite Ew. f_equal. clear Ew Hwf.
+  induction Hall as [|[k x] kvs [_ [Hx _]] _ IH]; [reflexivity|].
+  cbn [map flat_map]. rewrite wenc_cons, IH. f_equal. cbn [snd] in Hx.
+  destruct (wf_singular_facts _ _ _ Hx) as [_ [Hwt [_ Ee]]].
+  rewrite erec_enc. unfold kid_entry_span, evalb, ebody, entry_of, kval. cbn [fst snd]. rewrite Hwt, Ee. reflexivity.
 Qed.
